@@ -210,6 +210,11 @@ def _variants(kind, c, anchor, ddesc, n, fmt):
         alt = {"years": 1, "days": 0}
     if alt:
         out.append(("respelled_interval", dict(base, dur=alt)))
+    # intervals that differ by less than a microsecond are still different intervals
+    near = {"minutes": 66} if ddesc == {"minutes": 90} else ({"seconds": 1.0000004} if ddesc == {"seconds": 1} else None)
+    if near:
+        out.append(("near_interval_a", dict(base, dur=near)))
+        out.append(("near_interval_b", dict(base, dur={"hours": 1.1} if "minutes" in near else {"seconds": 1})))
     if not recur.is_nominal(ddesc) and fmt == 3:
         out.append(("other_notation", dict(base, fmt=1)))
     # a different interval that spans the same start and end (only the interval component differs):
